@@ -1,7 +1,7 @@
-from rules import flp_guards
+from rules import flp_guards, flp_shape
 
 INFO = {
-    "explanation": "Static GUARD rules over the MIR of the FLP core: every length refusal of prove/query/decide, the "
+    "explanation": "SYM shape identities (proof/verifier/prove-rand lengths, gadget counts, ceil(input_len/chunk_length) == joint_rand_len, range-check buffer arity, eval_output_len) for every circuit and every parameter, as polynomial normal forms; and static GUARD rules over the MIR of the FLP core: every length refusal of prove/query/decide, the "
                    "root-of-unity refusal for every gadget, decide's two checks, the call checks of every circuit and "
                    "gadget are present with the stated operands and relation, refuse on every path and dominate every "
                    "accepting return. Decides the length-exactness/refusal clauses of C05; completeness, soundness "
@@ -13,6 +13,8 @@ INFO = {
 
 def run(ctx):
     flp_guards.all_c05(ctx)
+    flp_shape.run_shape(ctx, "R-C05.S")
+    ctx.floor("R-C05.S", 40)
     ctx.floor("R-C05.G.prove", 3)
     ctx.floor("R-C05.G.query", 8)
     ctx.floor("R-C05.G.decide", 6)
